@@ -38,6 +38,40 @@ def opt (argv : List String) (f : String) : Option String :=
   | _ :: v :: _ => some v
   | _ => none
 
+/-- `clean sites -c <cut> …` (cmd/cleansites.go) on one alignment: `none` = not modelled, `some none` = refused
+(`--ignore-gaps` with gaps among the characters, `--ignore-n` with `N`/`n` among them), else the cleaning result
+with the kept and the removed positions -/
+def cleanSitesResult (rows : Rows) (cut : String) (fl : List String) : Option (Option CleanResult) := do
+  let L := lenOf rows
+  let (num, den) ← decFrac cut
+  let ends := flag fl "--ends"
+  let ch := (opt fl "--char").getD (← effective "cleanCmd" "char")
+  let ig := flag fl "--ignore-gaps"; let iN := flag fl "--ignore-n"
+  if ch == "GAP" || ch == "-" then
+    if ig then some none else
+    some (some (removeCharacterSites (cutoffTest num den) rows L 1 [GAP] ends false false iN false))
+  else if ch == "MAJ" then
+    some (some (removeMajoritySites (cutoffTestRaw num den) rows L 1 ends ig iN))
+  else
+    let cs := bytesOfString ch
+    if (cs.contains 78 || cs.contains 110) && iN then some none else
+    if cs.contains GAP && ig then some none else
+    some (some (removeCharacterSites (cutoffTest num den) rows L 1 cs ends (flag fl "--ignore-case") ig iN (flag fl "--reverse")))
+
+/-- a name given to an output-file flag that makes the command create exactly that file, uncompressed, in its
+working directory (`utils.OpenWriteFile`: `stdout` / `-` = standard output, `none` = nothing, `.gz` / `.xz` compressed) -/
+def plainFile (n : String) : Bool :=
+  n != "" && n != "stdout" && n != "-" && n != "none" && !n.endsWith ".gz" && !n.endsWith ".xz" &&
+  !n.startsWith "-" && n.all fun c => c.isAlphanum || c == '.' || c == '_'
+
+/-- the `files=` part of a `cli_libf` answer: every file once, plainly named, sorted by name -/
+def filesPart (fs : List (String × String)) : Option String :=
+  if fs.all (fun f => plainFile f.1) && (fs.map Prod.fst).eraseDups.length == fs.length then
+    some (";;".intercalate ((fs.mergeSort fun a b => decide (a.1 ≤ b.1)).map fun f => f.1 ++ "=" ++ f.2))
+  else none
+
+def numLines (l : List Nat) : String := String.join (l.map fun p => toString p ++ "|")
+
 def expected (rows : Rows) (argv : List String) : Option String :=
   let L := lenOf rows
   -- nucleotide alphabet (the generator only sends IUPAC nucleotides and gaps)
@@ -100,17 +134,9 @@ def expected (rows : Rows) (argv : List String) : Option String :=
     let ig := flag fl "--ignore-gaps"; let iN := flag fl "--ignore-n"
     some (ok [("consensus", (List.range L.toNat).map fun j => (maxCharSite 1 ig iN (columnAt rows j)).1)])
   | "clean" :: "sites" :: "-c" :: cut :: fl => do
-    let (num, den) ← decFrac cut
-    let ends := flag fl "--ends"
-    let ch := (opt fl "--char").getD (← effective "cleanCmd" "char")
-    if ch == "MAJ" then
-      let r := removeMajoritySites (cutoffTestRaw num den) rows L 1 ends (flag fl "--ignore-gaps") (flag fl "--ignore-n")
-      some (ok r.rows)
-    else
-      let cs := if ch == "GAP" then [GAP] else bytesOfString ch
-      let r := removeCharacterSites (cutoffTest num den) rows L 1 cs ends (flag fl "--ignore-case")
-        (flag fl "--ignore-gaps") (flag fl "--ignore-n") (flag fl "--reverse")
-      some (ok r.rows)
+    match ← cleanSitesResult rows cut fl with
+    | some r => some (ok r.rows)
+    | none => some bad
   | "mask" :: fl => do
     -- cmd/mask.go: `--unique` first, then `--pos` (each position a window of one site), else `-s` / `-l` (defaults
     -- 0 / 10); with `--ref-seq` every window is given on the ungapped reference and converted first
@@ -248,6 +274,11 @@ def expected2 (rows : Rows) (argv : List String) : Option String :=
       | none => some bad
       | some is => some (ok ((rows.zipIdx.filter fun (_, i) => is.contains i != rev).map Prod.fst))
     else some (ok (rows.filter fun r => given.contains r.1 != rev))
+  | ["stats", "alphabet"] =>
+    -- the alphabet the reader detected (`AutoAlphabet`), of the first alignment
+    if rows.isEmpty then none else
+    let a := autoAlphabet (rows.map Prod.snd)
+    some ("rc=0 out=" ++ (if a == NUCLEOTIDS then "nucleotide" else if a == AMINOACIDS then "protein" else "unknown") ++ "|")
   | ["stats", "gaps", "--from-start"] =>
     some ("rc=0 out=" ++ String.join (rows.map fun r => r.1 ++ " " ++ toString (numGapsFromStart r.2) ++ "|"))
   | ["stats", "gaps", "--from-end"] =>
@@ -315,6 +346,34 @@ def expectedF (rows : Rows) (files : List (String × String)) (argv : List Strin
     if (addAllStop (newAlign 1) o).2 || o.isEmpty then some badF else
     let r := appendRows (pairs (bagOf o)) (bagOf rows)
     some (if r.2 then badF else okF (pairs r.1) "")
+  | "dedup" :: fl => do
+    -- cmd/dedup.go: the alignment without the repeated rows on stdout; `-l`: one line per kept row, its name and
+    -- the names of the rows identical to it, comma separated (also when nothing is identical to it)
+    let lf ← opt fl "-l"
+    if !(fl.all fun a => a == "-l" || a == lf || a == "--n-as-gap") || lf.startsWith "-" then none else
+    let r := deduplicate (flag fl "--n-as-gap") (bagOf rows)
+    some (okF (pairs r.1) (← filesPart [(lf, String.join (r.2.2.map fun g => ",".intercalate g ++ "|"))]))
+  | ["compress", "--weight-out", wf] => do
+    -- cmd/compress.go: the distinct patterns on stdout, one weight per line in the file
+    if rows.isEmpty then none else
+    let (rs, ws, _) := compress rows (lenOf rows)
+    some (okF rs (← filesPart [(wf, numLines ws)]))
+  | "clean" :: "sites" :: "-c" :: cut :: fl => do
+    -- cmd/cleansites.go: `--positions` the remaining, `--positions-rm` the removed sites (0-based, one per line)
+    let outs := (match opt fl "--positions" with | some f => [(f, true)] | none => []) ++
+      (match opt fl "--positions-rm" with | some f => [(f, false)] | none => [])
+    if outs.isEmpty then none else
+    match ← cleanSitesResult rows cut fl with
+    | none => some badF
+    | some r => some (okF r.rows (← filesPart (outs.map fun o => (o.1, numLines (if o.2 then r.kept else r.removed)))))
+  | ["codonalign", "-f", ntf] => do
+    -- cmd/codonalign.go: the protein alignment on stdin, the unaligned nucleotide sequences in the file; both
+    -- alphabets are the ones the readers detect; any refusal of `CodonAlign` is a failing status
+    let nts ← fileRows ntf
+    if rows.isEmpty || (nts.map Prod.fst).eraseDups.length != nts.length then none else
+    match codonAlign (autoAlphabet (rows.map Prod.snd)) (autoAlphabet (nts.map Prod.snd)) rows nts with
+    | some r => some (okF r "")
+    | none => some badF
   | _ => none
 
 /-- `compute entropy [-a] [-g]`: numbers are printed with three decimals -/
@@ -344,10 +403,90 @@ def entropyVerdict (rows : Rows) (fl : List String) (impl : String) : Option Ans
         match l.splitOn " " with | ["0", jj, v] => jj == toString j && close v e | _ => false
     some ⟨if okk then impl else "per-site " ++ toString es, verdictOf okk "site-entropy-differs-from-library-model"⟩
 
+/-! ### `stats char`, `stats alleles`, `stats alphabet` (cmd/char.go, cmd/stats.go, cmd/alleles.go, cmd/stats_alphabet.go) -/
+
+def charOf (c : Byte) : String := stringOfBytes [c]
+
+def failCli : String := "command-line-differs-from-library-model"
+
+/-- `stats char [--per-sites] [--per-sequences] [--only c]`.
+* default: `char nb freq`, one line per upper-cased character (`CharStats`, sorted), the frequency printed with `%f`
+  (compared with a tolerance of 1e-6, the integer columns exactly);
+* `--per-sequences`: `seq` and the same characters, one line per row with its `CharStatsSeq` counts;
+* `--per-sites` (priority): `site` and the characters of the count profile as they are written (not upper-cased),
+  in order of first appearance, one line per site;
+* `--only c`: that column / line only, with 0 when the character does not occur. -/
+def charStatsVerdict (rows : Rows) (fl : List String) (impl : String) : Option Ans := do
+  let only := (opt fl "--only").getD (← effective "charCmd" "only")
+  if !(fl.all fun a => a == "--per-sites" || a == "--per-sequences" || a == "--only" || a == only) then none
+  let L := lenOf rows
+  if L < 0 then none
+  let all := only == "*"
+  let oc : Byte ← if all then some 0 else match bytesOfString only with | [c] => if c < 128 then some c else none | _ => none
+  let exact (m : String) : Ans := ⟨m, verdictOf (impl == m) failCli⟩
+  if flag fl "--per-sites" then
+    let prof ← countProfile rows L
+    let cols := if all then prof else
+      match prof.find? (·.1 == oc) with
+      | some q => [q]
+      | none => [(oc, List.replicate L.toNat 0)]
+    some (exact ("rc=0 out=site" ++ String.join (cols.map fun q => " " ++ charOf q.1) ++ "|" ++
+      String.join ((List.range L.toNat).map fun j =>
+        toString j ++ String.join (cols.map fun q => " " ++ toString (q.2.getD j 0)) ++ "|")))
+  else
+    let cs0 := charStats rows
+    let cs := if all || cs0.any (·.1 == oc) then cs0 else
+      (cs0.filter (·.1 < oc)) ++ [(oc, 0)] ++ cs0.filter (fun p => !(p.1 < oc))
+    let keys := if all then cs else cs.filter (·.1 == oc)
+    if flag fl "--per-sequences" then
+      some (exact ("rc=0 out=seq" ++ String.join (keys.map fun k => " " ++ charOf k.1) ++ "|" ++
+        String.join (rows.map fun r =>
+          let m := countsBy toUpper r.2
+          r.1 ++ String.join (keys.map fun k => " " ++ toString ((lookup k.1 m).getD 0)) ++ "|")))
+    else
+      let total := (cs.map Prod.snd).foldl (· + ·) 0
+      let want := "char nb freq " ++ " ".intercalate (keys.map fun k => charOf k.1 ++ ":" ++ toString k.2 ++ "/" ++ toString total)
+      if !impl.startsWith "rc=0 out=" then some ⟨want, "fail:" ++ failCli⟩ else
+      let lines := ((impl.drop 9).toString.splitOn "|").filter (· != "")
+      let close (txt : String) (nb : Nat) : Bool :=
+        match DetOps.parseDec txt with
+        | some v => Float.abs (v - Float.ofNat nb / Float.ofNat total) ≤ 0.000001
+        | none => false
+      let okk := lines.length == keys.length + 1 && lines.headD "" == "char nb freq" && impl.endsWith "|" &&
+        ((lines.drop 1).zip keys).all fun (l, k) =>
+          match l.splitOn " " with
+          | [c, nb, f] => c == charOf k.1 && nb == toString k.2 && close f k.2
+          | _ => false
+      some ⟨if okk then impl else want, verdictOf okk "character-table-differs-from-library-model"⟩
+
+/-- `stats alleles`: `fmt.Println(AvgAllelesPerSite())`, the quotient of two counts (`NaN` when no site has an allele) -/
+def allelesVerdict (rows : Rows) (impl : String) : Option Ans := do
+  let L := lenOf rows
+  if L < 0 then none
+  let c := avgAllelesCounts rows L
+  let want := "alleles " ++ toString c.1 ++ "/" ++ toString c.2
+  if !impl.startsWith "rc=0 out=" then some ⟨want, "fail:" ++ failCli⟩ else
+  let okk := match (impl.drop 9).toString.splitOn "|" with
+    | [v, ""] =>
+      if c.2 == 0 then v == "NaN" else
+      (match DetOps.parseDec v with
+       | some x => let q := Float.ofNat c.1 / Float.ofNat c.2; Float.abs (x - q) ≤ 1e-12 * q
+       | none => false)
+    | _ => false
+  some ⟨if okk then impl else want, verdictOf okk "average-number-of-alleles-differs-from-library-model"⟩
+
 def handle : Handler := fun op args impl =>
   match op, args with
   | "cli_lib", stdin :: "compute" :: "entropy" :: fl =>
     match entropyVerdict (parseFasta (stdin.splitOn "|")) fl impl with
+    | some a => some a
+    | none => some ⟨"unmodelled", "na"⟩
+  | "cli_lib", stdin :: "stats" :: "char" :: fl =>
+    match charStatsVerdict (parseFasta (stdin.splitOn "|")) fl impl with
+    | some a => some a
+    | none => some ⟨"unmodelled", "na"⟩
+  | "cli_lib", [stdin, "stats", "alleles"] =>
+    match allelesVerdict (parseFasta (stdin.splitOn "|")) impl with
     | some a => some a
     | none => some ⟨"unmodelled", "na"⟩
   | "cli_lib", stdin :: argv =>
